@@ -1,17 +1,26 @@
 PROP = dict(
+    # the zone string itod returns aliases a pooled buffer: the model's value semantics needs "sockaddr.go never Puts"
+    gens=[dict(tool="gensockpool", out="GenSockPool.v", args=["{repo}"])],
     drivers=[dict(cmd="drv-sockaddr", family="sockaddr")],
     rule="conversion part: 10^4 seeded random IPv4 / IPv6 / v4-in-v6 / nil addresses x zone pool (interface names and "
          "indices of this machine, free indices incl. 9999, 16777214, >= 0xFFFFFF, malformed zones) x boundary and random "
          "ports, there-and-back in both directions; every port 0..65535; itod 0..19999 + decimal boundaries + random "
          "uint64; dtoi on digit strings with junk; To4/To16/Equal and IPToSockaddr on every length 0..20; unsupported "
          "networks and foreign types; Unix paths (empty, abstract, 107/108 bytes, binary); listen-side GetTCPSockAddr/"
-         "GetUDPSockAddr. A case is a batch of ops over the machine's interface table (given to the model as `if` op "
+         "GetUDPSockAddr; stability: converted addresses / zone strings (numeric fallback zones, named zones, v4, unix) are "
+         "kept alive, the byte-slice pool (every size 1..64, filled with 'x'), linked-list buffers and further itod calls "
+         "are churned, and every kept value is re-read (`recheck`, predicted by the model and judged by the oracle "
+         "addr-stability); a phase inside a private network namespace (unshare(CLONE_NEWNET) on a locked thread) with "
+         "interfaces named 6to4, 7, 12ab, 5(index 5), 3, 007, 16777216, 0, 6in4-wan, 9x, 40(index 40): every zone "
+         "string/index both directions, that namespace's table given to the model (skipped, not failed, without "
+         "privilege or `ip`). A case is a batch of ops over the machine's interface table (given to the model as `if` op "
          "lines); non-trivial when it reaches one of the generator classes; distinct by hash of its op lines. "
          "Integration part: real gnet servers (tcp4 reactors, tcp4 reuseport+ET, tcp6 ::1, tcp6 link-local with zone, "
          "dual-stack wildcard, port 0, unix with bound/unbound/abstract clients, udp4, udp6), 300 churning + 12 "
          "long-lived connections each; every callback compares RemoteAddr/LocalAddr with the peer's own view and with "
          "the values seen at OnOpen (oracle only, no model prediction).",
-    trusted=["net.IP.To4/To16/Equal, net.InterfaceByName/ByIndex and golang.org/x/sys/unix sockaddr (de)serialisation are "
+    trusted=["translator harness/cmd/gensockpool (go/ast: uses of pkg/pool/byteslice in pkg/socket/sockaddr.go)",
+             "net.IP.To4/To16/Equal, net.InterfaceByName/ByIndex and golang.org/x/sys/unix sockaddr (de)serialisation are "
              "modelled/assumed, not verified",
              "the kernel reports truthful peer addresses (accept4/recvfrom/getsockname)"],
     assumptions=["the OS interface table is a finite partial bijection name<->index that does not change during a run",
